@@ -287,18 +287,7 @@ impl<'a> Enc<'a> {
                         }
                         let chunk0 = std::mem::replace(&mut self.out, saved);
                         r?;
-                        self.out.push(newer as u8);
-                        let n0 = Self::len_i32(chunk0.len())?;
-                        self.vi(n0);
-                        let junk: Vec<usize> = (0..newer as usize).map(|j| (chunk0.len() + 3 * j + 1) % 5).collect();
-                        for &n in &junk {
-                            self.vi(n as i32); // 0 = a step this reader cannot know, n = a chunk of n bytes
-                        }
-                        self.out.extend_from_slice(&chunk0);
-                        for &n in &junk {
-                            self.out.extend(std::iter::repeat(0xEE).take(n));
-                        }
-                        return Ok(());
+                        return self.wrap_newer(newer, chunk0);
                     }
                     if !(ts.len() == 1 && self.quirks.tuple1_without_version) {
                         self.out.push(0);
@@ -440,6 +429,19 @@ impl<'a> Enc<'a> {
                     if fields.len() != variant.record.fields.len() {
                         return Self::shape(ty, v);
                     }
+                    let newer = match self.tuple_newer.as_mut() {
+                        Some(f) => f().min(200),
+                        None => 0,
+                    };
+                    if newer > 0 {
+                        // an enum written by a definition n steps ahead: chunk 0 holds the constructor and its record
+                        let saved = std::mem::take(&mut self.out);
+                        self.vu(schema.wire_index(*decl));
+                        let r = self.record(&variant.record, fields);
+                        let chunk0 = std::mem::replace(&mut self.out, saved);
+                        r?;
+                        return self.wrap_newer(newer, chunk0);
+                    }
                     self.out.push(0);
                     self.vu(schema.wire_index(*decl));
                     self.record(&variant.record, fields)
@@ -447,6 +449,22 @@ impl<'a> Enc<'a> {
                 _ => Self::shape(ty, v),
             },
         }
+    }
+
+    /// version byte n, header (size of chunk 0, n entries of a writer this reader knows nothing about), chunk 0, their chunks
+    fn wrap_newer(&mut self, newer: u32, chunk0: Vec<u8>) -> Result<(), EncErr> {
+        self.out.push(newer as u8);
+        let n0 = Self::len_i32(chunk0.len())?;
+        self.vi(n0);
+        let junk: Vec<usize> = (0..newer as usize).map(|j| (chunk0.len() + 3 * j + 1) % 5).collect();
+        for &n in &junk {
+            self.vi(n as i32); // 0 = a step this reader cannot know, n = a chunk of n bytes
+        }
+        self.out.extend_from_slice(&chunk0);
+        for &n in &junk {
+            self.out.extend(std::iter::repeat(0xEE).take(n));
+        }
+        Ok(())
     }
 
     fn record(&mut self, schema: &RecordSchema, fields: &[Val]) -> Result<(), EncErr> {
